@@ -1180,6 +1180,7 @@ pub fn spin() {
         }
         ST::spins += 1;
         if ST::mode == LR {
+            (HOOKS.stuck)();
             // Iterations that do not advance the round re-read identical values
             // (stutter); only K-1 advances exist, so more than spin_bound
             // iterations add no behaviour inside the K-round bound.
